@@ -33,7 +33,7 @@ ASSUMPTIONS = [
 COMPONENTS = {"real": ["lib/chibi/base64.scm (streaming encode/decode)", "lib/chibi/json.c reader/writer", "lib/chibi/csv.scm", "lib/chibi/quoted-printable.scm",
                        "(scheme bytevector) accessors (bytevector.stub)", "lib/chibi/uri.scm uri-encode / uri-decode", "lib/srfi/160/uvprims.stub accessors", "read-bytevector!/read-string/port buffering", "collector"],
               "stub": ["byte delivery schedule", "stored-byte corruption", "collection schedule", "clock"]}
-BUDGET = {"quick": {"seconds": 55, "cases": 8000}, "thorough": {"seconds": 1200, "cases": 600000}}
+BUDGET = {"quick": {"seconds": 55, "cases": 8000, "min_cases": 300}, "thorough": {"seconds": 1200, "cases": 600000}}
 IMPORTS = ["(srfi 18)", "(chibi io)", "(chibi base64)", "(chibi json)", "(chibi csv)", "(chibi quoted-printable)", "(scheme bytevector)", "(chibi uri)", "(srfi 160 base)"]
 CONFIGS = {
     "sim": {"variant": "sim", "imports": IMPORTS, "timeout_ms": 60000},
